@@ -309,6 +309,75 @@ def _callee_identity(det):
     return None
 
 
+def _iterator_walk(run, f, det, hb, htr, want_start, want_target, hp):
+    """The walk written with iterator adaptors:
+        successors(graph.get(&start), |x| graph.get(&x.id)).take(graph.len()).any(|x| x.id == target)
+    Same obligations as for the loop: start at the callee's id, continue from the successor just looked up, at least
+    graph.len() steps, `true` exactly when a visited successor is the target. Returns True when this idiom was recognised
+    (obligations recorded), False when the body is not of this form."""
+    ret = strip_wrappers(htr.norm(htr.local(0)))
+    if not (ret[0] == "call" and ret[2].endswith("Iterator::any")):
+        return False
+    aa = [htr.norm(x) for x in htr.call_args(ret[1])]
+    it_ = strip_wrappers(aa[0])
+    okshape = it_[0] == "call" and it_[2].endswith("Iterator::take")
+    ta = [strip_wrappers(htr.norm(x)) for x in htr.call_args(it_[1])] if okshape else []
+    succ = ta[0] if ta else None
+    okshape = okshape and succ is not None and succ[0] == "call" and (succ[2].endswith("iter::successors") or succ[2].endswith("::successors"))
+    if not run.require(okshape, "O14.8", "walk-advances", "has_path returns Iterator::any over %s, not over successors(..).take(..)" % show(it_), "successors(first, next).take(n).any(test)"):
+        return True
+    sa = [strip_wrappers(htr.norm(x)) for x in htr.call_args(succ[1])]
+    first, nxt = sa[0], htr.norm(htr.call_args(succ[1])[1])
+    # start: graph.get(&start)
+    start_ok = first[0] == "call" and deadlock.is_map_method(f, hb.blocks[first[1]], "get")
+    sp_ = None
+    if start_ok:
+        ga = [strip_wrappers(htr.norm(x)) for x in htr.call_args(first[1])]
+        sp_ = ga[1]
+        start_ok = ga[0][0] == "param" and sp_ == ("param", want_start)
+    # next: |x| graph.get(&x.id) on the same map
+    adv_ok = False
+    if nxt[0] == "agg" and nxt[1][0] == "closure":
+        cb = f.body(nxt[1][1])
+        if cb is not None:
+            run.count_body(cb)
+            ctr = tracer_of(cb)
+            r = strip_wrappers(ctr.norm(ctr.local(0)))
+            if r[0] == "call" and deadlock.is_map_method(f, cb.blocks[r[1]], "get") and len(list(live_calls(cb))) == 1:
+                ka = [strip_wrappers(ctr.norm(x)) for x in ctr.call_args(r[1])]
+                key = ka[1]
+                adv_ok = ka[0][0] == "upvar" and key[0] == "field" and strip_wrappers(key[2]) == ("param", 2)
+    run.require(adv_ok, "O14.8", "walk-advances", "the successor function of the walk is not `|x| graph.get(&x.id)`: the walk does not continue from the successor just looked up", "each step continues from the successor just looked up")
+    # any: |x| x.id == target
+    test = aa[1]
+    found_ok = False
+    cmp_is_target = False
+    if test[0] == "agg" and test[1][0] == "closure":
+        cb = f.body(test[1][1])
+        if cb is not None:
+            run.count_body(cb)
+            ctr = tracer_of(cb)
+            r = strip_wrappers(ctr.norm(ctr.local(0)))
+            if r[0] == "binop" and r[1] == "Eq" and not list(live_calls(cb)):
+                sides = [strip_wrappers(r[2]), strip_wrappers(r[3])]
+                fld = [x for x in sides if x[0] == "field" and strip_wrappers(x[2]) == ("param", 2)]
+                upv = [x for x in sides if x[0] == "upvar"]
+                found_ok = len(fld) == 1 and len(upv) == 1
+                if found_ok and upv[0][1] < len(test[2]):
+                    cmp_is_target = strip_wrappers(test[2][upv[0][1]]) == ("param", want_target)
+    run.require(start_ok and cmp_is_target, "O14.5", "walk-direction",
+                "has_path starts its walk at %s and looks for %s; ask passes the callee's id as #%d and the caller's id as #%d (the walk must ask 'can the callee reach me')" % (show(sp_) if sp_ else None, "the wrong value" if not cmp_is_target else "the target", want_start, want_target),
+                "walk starts at the callee's id and looks for the caller's id", loc=det.loc(hp))
+    run.require(found_ok, "O14.9", "walk-found-returns-true", "the test of the walk is not `successor.id == target`", "any(|x| x.id == target): true exactly when a visited successor is the target")
+    run.ok("O14.9", "walk-otherwise-false", "Iterator::any answers false when the chain ends or the bound is exhausted")
+    # bound: take(graph.len())
+    n_ = ta[1] if len(ta) > 1 else None
+    bound_ok = n_ is not None and n_[0] == "call" and deadlock.is_map_method(f, hb.blocks[n_[1]], "len") and strip_wrappers(htr.norm(htr.call_args(n_[1])[0]))[0] == "param"
+    run.require(bound_ok, "O14.7", "walk-step-bound", "the walk is bounded by take(%s); a chain through all n edges of the wait-for graph needs n = graph.len() steps" % (show(n_) if n_ else None),
+                "walk bounded by take(graph.len())")
+    return True
+
+
 def direction(run, f, det):
     tr = det.tr
     if not det.has_path:
@@ -327,6 +396,10 @@ def direction(run, f, det):
         return
     run.count_body(hb)
     htr = tracer_of(hb)
+    want_start = pos_callee[0] + 1
+    want_target = pos_caller[0] + 1
+    if _iterator_walk(run, f, det, hb, htr, want_start, want_target, hp):
+        return
     gets = [k for k in live_calls(hb) if deadlock.is_map_method(f, k, "get")]
     start_params = set()
     advances = False
